@@ -12,6 +12,20 @@ package reconciler
 //@ func WriteTxn.*
 //@   trusted
 //@   modifies H_statedb_* H_part_* H_lpm_* E_p_statedb_* E_p_part_* E_p_lpm_* GH_* CH_closed MD_* MV_* MN_* B_*
+// GH_twrites[nil] counts the successful table writes made through the interface (each bumps the
+// table revision): the reconciler must pair a retry with the revision of ITS OWN status write.
+//@ ghostcomp GH_twrites int
+//@ func RWTable.CompareAndSwap returns (oldObj, hadOld, err)
+//@   trusted
+//@   modifies H_statedb_* H_part_* H_lpm_* E_p_statedb_* E_p_part_* E_p_lpm_* GH_* CH_closed MD_* MV_* MN_* B_*
+//@   ensures GH_twrites[nil] == old(GH_twrites)[nil] + (err == nil ? 1 : 0)
+//@ func RWTable.Insert returns (oldObj, hadOld, err)
+//@   trusted
+//@   modifies H_statedb_* H_part_* H_lpm_* E_p_statedb_* E_p_part_* E_p_lpm_* GH_* CH_closed MD_* MV_* MN_* B_*
+//@   ensures GH_twrites[nil] == old(GH_twrites)[nil] + (err == nil ? 1 : 0)
+//@ func RWTable.Revision
+//@   trusted
+//@   pure
 //@ func (*DB).ReadTxn
 //@   trusted
 //@   pure
@@ -30,8 +44,10 @@ package reconciler
 // commitStatus: the only table writes are CompareAndSwap on the reconciled revision and -
 // only when the object still carries the same pending identifier - the Insert fallback; a
 // retry is queued only when the operation failed AND its status was actually written.
+//@ spec statusWriteNo(tag mathint) mathint
+//@ spec revisionReadAtWrite(tag mathint) mathint
 //@ func (*incremental).commitStatus
-//@   property C15
+//@   property C15 C16
 //@   flag nosafety
 //@   maypanic
 //@   requires incr != nil && incr.db != nil && !GH_held[addr(incr.db.mu)]
@@ -41,6 +57,10 @@ package reconciler
 //@   flag dyncall.CloneObject=pure
 //@   atcall RWTable.Insert@1 requires @fallback-needs-same-pending exists && *currentStatus.Kind == StatusKindPending && currentStatus.ID == result.id
 //@   atcall (*retries).Add@1 requires @retry-only-after-status-write result.err != nil && err == nil
+//@   aftercall RWTable.CompareAndSwap@1 assume statusWriteNo(1) == GH_twrites[nil]
+//@   aftercall RWTable.Insert@1 assume statusWriteNo(2) == GH_twrites[nil]
+//@   aftercall RWTable.Revision@1 assume revisionReadAtWrite(1) == GH_twrites[nil]
+//@   atcall (*retries).Add@1 requires @retry-carries-the-revision-of-its-own-status-write $2 == newRevision && revisionReadAtWrite(1) == GH_twrites[nil] && (GH_twrites[nil] == statusWriteNo(1) || GH_twrites[nil] == statusWriteNo(2))
 
 // single / batch: an object that is neither deleted nor pending/refreshing is skipped
 // without being passed to the operations (it is handled by the retry queue only).
@@ -51,6 +71,14 @@ package reconciler
 //@   flag dyncall.GetObjectStatus=pure
 //@   atcall (*incremental).processSingle@1 requires @only-pending-or-deleted change.Deleted || *status.Kind == StatusKindPending || *status.Kind == StatusKindRefreshing
 //@   atcall (*incremental).processSingle@1 requires @progress-is-the-change-attempted lastRev == rev
+//@   mustcall Clear@1 when @changed-object-drops-its-pending-retry incr.numReconciled == old(incr.numReconciled) + 1
+//@ func (*incremental).batch$1
+//@   property C15 C16
+//@   flag nosafety
+//@   maypanic
+//@   flag dyncall.GetObjectStatus=pure
+//@   flag dyncall.CloneObject=pure
+//@   mustcall Clear@1 when @changed-object-drops-its-pending-retry incr.numReconciled == old(incr.numReconciled) + 1
 
 // ---------------------------------------------------------------------------
 // Retry pacing and progress (C16)
